@@ -773,12 +773,70 @@ func genArch(r *Rng) []byte {
 	return append(append(append(hdr, loc...), '\n'), body...)
 }
 
+// ---- documents for postprocessItem under domains crawl ---------------------------------------------
+
+// genDCPost: byte 0 = domains-crawl configuration (index into dcConfigs), byte 1 = flags (bit 0 hop limit
+// reached, bits 1-2 depth), one link text for the Link header, newline, then an HTML page / sitemap / text whose
+// links come from genDCLink (texts the matcher's URL parser refuses next to ones it accepts).
+func genDCPost(r *Rng) []byte {
+	cfg := dcPick(r)
+	if r.Chance(8) {
+		cfg = 0
+	}
+	flags := byte(r.Intn(256))
+	if r.Chance(70) {
+		flags &^= 6 // depth 0
+	}
+	link := ""
+	if r.Chance(40) {
+		link = strings.NewReplacer("\n", "", "\r", "").Replace(genDCLink(r))
+	}
+	q := func(s string) string { return strings.ReplaceAll(s, "\"", "&quot;") }
+	var b strings.Builder
+	switch r.Intn(6) {
+	case 0: // sitemap
+		b.WriteString("<?xml version=\"1.0\" encoding=\"UTF-8\"?>\n<urlset xmlns=\"http://www.sitemaps.org/schemas/sitemap/0.9\">")
+		for i := r.Intn(6); i >= 0; i-- {
+			fmt.Fprintf(&b, "<url><loc>%s</loc></url>", xmlEsc(genDCLink(r)))
+		}
+		b.WriteString("</urlset>")
+	case 1: // text
+		for i := r.Intn(5); i >= 0; i-- {
+			b.WriteString(randWord(r) + " " + genDCLink(r) + " ")
+		}
+		b.WriteString("\n")
+	case 2: // a generated page with such links appended
+		b.Write(genHTMLDoc(r))
+		for i := r.Intn(4); i >= 0; i-- {
+			fmt.Fprintf(&b, "<a href=\"%s\">x</a>", q(genDCLink(r)))
+		}
+	default:
+		b.WriteString("<html><head><title>t</title>")
+		if r.Chance(15) {
+			fmt.Fprintf(&b, "<base href=\"%s\">", q(genDCLink(r)))
+		}
+		b.WriteString("</head><body>")
+		for i := r.Intn(8); i >= 0; i-- {
+			switch r.Intn(6) {
+			case 0:
+				fmt.Fprintf(&b, "<img src=\"%s\">", q(genDCLink(r)))
+			case 1:
+				fmt.Fprintf(&b, "<a data-href=\"%s\" onclick=\"window.location.href = '%s';\">y</a>", q(genDCLink(r)), genDCLink(r))
+			default:
+				fmt.Fprintf(&b, "<a href=\"%s\">%s</a>", q(genDCLink(r)), randWord(r))
+			}
+		}
+		b.WriteString("</body></html>")
+	}
+	return append(append([]byte{byte(cfg), flags}, []byte(link+"\n")...), b.String()...)
+}
+
 // ---- dispatcher -------------------------------------------------------------------------------
 
-var fuzzTargets = []string{"html", "json", "xml", "sitemap", "s3", "m3u8", "pdf", "post", "norm", "linkhdr", "script", "body", "site", "sitepost", "arch"}
+var fuzzTargets = []string{"html", "json", "xml", "sitemap", "s3", "m3u8", "pdf", "post", "norm", "linkhdr", "script", "body", "site", "sitepost", "arch", "dcpost"}
 
 // weights of the targets in the generated stream (pdf is slow, it gets fewer inputs)
-var fuzzWeights = []int{16, 10, 10, 5, 6, 14, 4, 12, 8, 3, 4, 3, 4, 10, 10}
+var fuzzWeights = []int{16, 10, 10, 5, 6, 14, 4, 12, 8, 3, 4, 3, 4, 10, 10, 10}
 
 func fuzzTargetIndex(name string) int {
 	for i, t := range fuzzTargets {
@@ -804,6 +862,8 @@ func genFuzzData(target, g string, seed uint64) []byte {
 			return genSitePost(r), siteDict
 		case "arch":
 			return genArch(r), urlDict
+		case "dcpost":
+			return genDCPost(r), append(append([]string{}, dcOddLinks...), "<a href=\"", "\">", "<loc>", "</loc>", "?q=", "é")
 		case "xml":
 			return genXMLDoc(r), xmlDict
 		case "sitemap":
@@ -873,6 +933,9 @@ func genFuzzData(target, g string, seed uint64) []byte {
 			return pathoJSON(r)
 		case "sitepost":
 			return append([]byte{byte(r.Intn(256)), byte(r.Intn(256))}, pathoJSON(r)...)
+		case "dcpost": // thousands of links the matcher's parser refuses
+			n := 200 + r.Intn(3000)
+			return append([]byte{byte(dcPick(r)), byte(r.Intn(2)), '\n'}, []byte("<html><body>"+strings.Repeat("<a href=\""+pickS(r, dcOddLinks)+"\">x</a>", n))...)
 		case "arch":
 			return append([]byte{byte(r.Intn(256)), byte(r.Intn(256)), byte(r.Intn(256))}, []byte("http://"+strings.Repeat("%", 1+r.Intn(3000))+"\n"+strings.Repeat("<div>", r.Intn(3000)))...)
 		case "xml", "sitemap", "s3":
